@@ -165,7 +165,38 @@ def match_known(prop, mod, failure, findings):
     return None
 
 
+def _own_process_group():
+    """processes started below this check (pool workers, and what the library starts inside them: multiprocessing managers,
+    per-query workers) must not outlive it - a worker killed while the library holds a `multiprocessing.Manager()` leaves
+    the manager's server process behind, which keeps the check's stdout open for ever. The check therefore runs in a
+    process group of its own and signals that group when it exits."""
+    import atexit
+    import signal
+
+    try:
+        os.setpgid(0, 0)
+    except OSError:
+        pass
+    if os.getpgid(0) != os.getpid():
+        return
+
+    def reap():
+        try:
+            sys.stdout.flush()
+            sys.stderr.flush()
+            signal.signal(signal.SIGTERM, signal.SIG_IGN)
+            os.killpg(os.getpid(), signal.SIGTERM)
+        except Exception:  # noqa: BLE001
+            pass
+    atexit.register(reap)
+
+
 def main():
+    _own_process_group()
+    if os.environ.get("VERIF_DEBUG_HANG"):
+        import faulthandler
+        faulthandler.dump_traceback_later(int(os.environ["VERIF_DEBUG_HANG"]), exit=True)
+
     ap = argparse.ArgumentParser()
     ap.add_argument("prop")
     ap.add_argument("--tier", default=os.environ.get("VERIF_TIER", "quick"), choices=["quick", "thorough"])
